@@ -33,8 +33,33 @@ func HarnessLocks() {
 		if kind == 2 {
 			zz.Reach("close")
 			i := zz.Choose(len(open))
-			zz.Assert(open[i].db.Close() == nil, "locks/close")
+			if zz.Param("faults", 0) == 1 && zz.Choose(2) == 1 {
+				// a failing unmap (or unlock) inside Close: Close may report it, but the handle is gone
+				// and its lock with it ("closing releases the lock")
+				zz.FaultAnyOnce("munmap")
+				cerr := open[i].db.Close()
+				fired := zz.FaultFired()
+				zz.FaultDisarm()
+				if fired {
+					zz.Reach("close-with-fault")
+					zz.Assert(cerr != nil, "locks/faulted-close-reports-error")
+				} else {
+					zz.Assert(cerr == nil, "locks/close")
+				}
+			} else {
+				zz.Assert(open[i].db.Close() == nil, "locks/close")
+			}
 			open = append(open[:i], open[i+1:]...)
+			nx, ns := 0, 0
+			for _, h := range open {
+				if h.ro {
+					ns++
+				} else {
+					nx++
+				}
+			}
+			ex, sh := zz.LockHolders(path)
+			zz.Assert(ex == nx && sh == ns, "locks/close-releases-exactly-its-lock")
 		} else {
 			ro := kind == 1
 			o := c.options()
